@@ -507,7 +507,7 @@ fn value_check(ctx: &Ctx, n: u64) {
 }
 
 pub fn run(ctx: &Ctx) {
-    ctx.set_rule("(a) every sequence of 1..3 (thorough: 4) binary operators over all 16 (incl. `..`) with operand shapes rotating over names, calls, index, range-index, .name, ->name and negative literals: parsed tree == grouping computed from the tier table; (b) random deep expression trees over every syntactic form printed with minimal, full and random redundant parentheses in random layouts: parsed tree == written tree; (c) literal-minus and parenthesis-override catalogue; (d) value-level cross-check of flat integer sequences through the binary against the reference; flat chains of 17..64 operands and 64 nested parentheses as trees; evaluated chains of 3..64 operands per tier against the left fold / the fully parenthesised chain. Non-trivial = >= 2 operators with two different tiers or operators; distinct = distinct source texts");
+    ctx.set_rule("(a) every sequence of 1..3 (thorough: 4) binary operators over all 16 (incl. `..`) with operand shapes rotating over names, calls, index, range-index, .name, ->name and negative literals: parsed tree == grouping computed from the tier table; (b) random deep expression trees over every syntactic form printed with minimal, full and random redundant parentheses in random layouts: parsed tree == written tree; (c) literal-minus and parenthesis-override catalogue; (d) value-level cross-check of flat integer sequences through the binary against the reference; flat chains of 17..64 operands and 64 nested parentheses as trees; evaluated chains of 3..64 operands per tier against the left fold / the fully parenthesised chain; every operator between 22 kinds of left operand (names, literals, calls, indexes, properties, parenthesised groups) and {1, -1, a, (1), -1 - 2} under the four spacings `a - 1` / `a -1` / `a- 1` / `a-1` as trees. Non-trivial = >= 2 operators with two different tiers or operators; distinct = distinct source texts");
     ctx.replay_corpus(None);
     if !worker_available() {
         ctx.note("in-process back-end unavailable: tree checks skipped, only the value-level cross-check ran");
